@@ -17,6 +17,9 @@ ALPHA = {
     "literals": (["-literals"], {}, []),
     "seedA": ([SA], {}, []),
     "seedB": ([SB], {}, []),
+    # two seeds longer than 8 bytes that share their first 8 bytes (every seed byte takes part in name hashing)
+    "seedLong1": (["-seed=AAECAwQFBgcI"], {}, []),
+    "seedLong2": (["-seed=AAECAwQFBgcJ"], {}, []),
     "gogarble-lib": ([], {"GOGARBLE": MODP + "/lib"}, []),
     "gogarble-mod": ([], {"GOGARBLE": MODP}, []),
     "ctrlflow": ([], {"GARBLE_EXPERIMENTAL_CONTROLFLOW": "1"}, []),
@@ -26,7 +29,7 @@ ALPHA = {
     "literals-ldx1": (["-literals"], {}, ["-ldflags=-X=main.version=v1"]),
     "literals-ldx2": (["-literals"], {}, ["-ldflags=-X=main.version=v2"]),
 }
-QUICK = ["default", "literals", "seedA", "seedB", "tags", "literals-ldx1", "gogarble-lib"]
+QUICK = ["default", "literals", "seedA", "seedLong1", "seedLong2", "tags", "literals-ldx1", "gogarble-lib"]
 names = QUICK if tier == "quick" else list(ALPHA)
 
 def sources(state):
